@@ -310,7 +310,18 @@ def main():
             status = "inconclusive"
         if c != "ok":
             log("---- task %s shard %d: %s (rc=%s, %.0fs) %s" % (t["name"], t["shard"], c, t["rc"], t["wall"], t.get("note", "")))
-            log((t["out"] or "")[-3000:])
+            # rapid prints the failure message first and then hundreds of draw lines: show the
+            # output without them, and keep the whole output of the task for inspection
+            lines = [l for l in (t["out"] or "").splitlines() if "[rapid] draw" not in l]
+            txt = "\n".join(lines)
+            log(txt if len(txt) < 6000 else txt[:3000] + "\n[...]\n" + txt[-3000:])
+            try:
+                fd = os.path.join(BUILD, "failed")
+                os.makedirs(fd, exist_ok=True)
+                with open(os.path.join(fd, "%s-%s-seed%d-%s-s%d.log" % (pid, tier, seed, t["name"], t["shard"])), "w") as f:
+                    f.write(t["out"] or "")
+            except Exception:
+                pass
 
     # generator floors
     floor_fail = []
